@@ -468,6 +468,10 @@ class Interp:
             return f.fn(self, f.recv, *args, **kwargs)
         if isinstance(f, ClassVal):
             return self.instantiate(f, args, kwargs)
+        if isinstance(f, Obj):
+            m = self.find_method(f.cls, "__call__")
+            if m:
+                return self.call_function(FuncVal(m[0].mod, m[1], m[0], bound=f), args, kwargs)
         if callable(f) and getattr(f, "_pyvc_native", False):
             return f(*args, **kwargs)
         raise Unsupported(f"call of {f!r}")
